@@ -179,3 +179,46 @@ func HasSuffix(s, p string) bool { return len(s) >= len(p) && s[len(s)-len(p):] 
 func CloneString(s string) string { return s }
 func MakeNoZero(n int) []byte    { return make([]byte, n) }
 
+
+// Unsupported ends the current path as "left the modelled kernel"; the engine
+// intercepts it.
+func Unsupported(msg string) { panic("verif: unsupported: " + msg) }
+
+// HTMLUnescape models html.UnescapeString for the strings the renderer gives
+// it: it decodes exactly the five references the HTML escaper emits and leaves
+// the modelled kernel on any other '&' (the real function knows 2231 named
+// references).
+func HTMLUnescape(s string) string {
+	if IndexByteString(s, '&') < 0 {
+		return s
+	}
+	var out []byte
+	for i := 0; i < len(s); {
+		if s[i] != '&' {
+			out = append(out, s[i])
+			i++
+			continue
+		}
+		rest := s[i:]
+		switch {
+		case HasPrefix(rest, "&#34;"):
+			out = append(out, '"')
+			i += 5
+		case HasPrefix(rest, "&#39;"):
+			out = append(out, '\'')
+			i += 5
+		case HasPrefix(rest, "&amp;"):
+			out = append(out, '&')
+			i += 5
+		case HasPrefix(rest, "&lt;"):
+			out = append(out, '<')
+			i += 4
+		case HasPrefix(rest, "&gt;"):
+			out = append(out, '>')
+			i += 4
+		default:
+			Unsupported("html.UnescapeString on a reference the HTML escaper does not emit")
+		}
+	}
+	return string(out)
+}
